@@ -223,6 +223,36 @@ def step(c0: int, p0: int, s0: int, ua: bool, ub: bool, c1: int, p1: int, s1: in
     return False
 
 
+def step_space(p0: int, s0: int, p1: int, s1: int, t1: int, swap: bool) -> bool:
+    """
+    two spatial ranks, written in the space list in loop order or not: the temporal prefix ends at the first spatial
+    rank IN LOOP ORDER (same configuration, no functional components, so only the prefix decides)
+    pre: 0 <= p0 < NP and 0 <= s0 <= NR
+    pre: 0 <= p1 < NP and 0 <= s1 and s1 < t1 and t1 < NR
+    post: _
+    """
+    p0 = conc(p0, NP)
+    s0 = conc(s0, NR + 1)
+    p1 = conc(p1, NP)
+    s1 = conc(s1, NR)
+    t1 = conc(t1, NR)
+    swap = True if swap else False
+    hw = _HW({"E1": "cfg0"}, [])
+    f = Fusion(hw)
+    f.blocks = [["E0"]]
+    f.curr_block = f.blocks[-1]
+    f.curr_config = "cfg0"
+    f.fused_ranks = prefix(p0, s0)
+    f.components_used = set()
+    ranks = PERMS[p1]
+    space = [ranks[t1], ranks[s1]] if swap else [ranks[s1], ranks[t1]]
+    f.add_einsum(_Prog("E1", ranks, space))
+    may_fuse = prefix(p0, s0) == ranks[:s1]
+    if may_fuse:
+        return f.blocks == [["E0", "E1"]] and f.fused_ranks == ranks[:s1]
+    return f.blocks == [["E0"], ["E1"]] and f.fused_ranks == ranks[:s1]
+
+
 def step_twin(c0: int, p0: int, s0: int, ua: bool, ub: bool, c1: int, p1: int, s1: int, a1: bool, b1: bool) -> bool:
     """
     reachability witness: the harness can return True *with a fused block* (post must be violated)
